@@ -27,6 +27,8 @@ def main():
     import warnings
     warnings.filterwarnings("ignore")
     sys.path.insert(0, VERIF)
+    if os.environ.get("VERIF_REPO"):  # scratch copies of the repository (mutation trials); default is /repo itself
+        sys.path.insert(0, os.environ["VERIF_REPO"])
     args = sys.argv[1:]
     if not args:
         print(__doc__)
